@@ -20,6 +20,7 @@ def units(tier):
            W + "CloudpickledObjectWrapper.__getattr__", W + "_reconstruct_wrapper"]
     return [
         H("C16", M, "check_object_wrapper", t, fns, "6 exemplars x keep_wrapper x 1..3 round trips x 6 attribute names x arg 0..3"),
+        H("C16", M, "check_repickle_after_mutation", t, fns, "3 stateful exemplars x keep_wrapper: pickle, mutate the wrapped object, read through the wrapper, pickle the same wrapper again"),
         H("C16", M, "check_rewrap", t, fns, "6 exemplars already wrapped (inner keep_wrapper symbolic) wrapped again x keep_wrapper x 1..2 round trips"),
         H("C16", M, "check_class_wrapper", t, fns, "3 classes x keep_wrapper x 1..2 round trips x ctor args 0..2"),
     ]
